@@ -5,7 +5,7 @@ from .. import proofgate, composer, widgets, protocol
 from .. import jubjub as J
 
 THEOREMS = ["C09_range_layout", "C09_range_block_closed", "C09_range_sound", "C09_range_sound_in_system",
-            "C09_entry_points_equal", "C09_entry_point_clamp", "C09_gate_count"]
+            "C09_entry_points_equal", "C09_entry_point_clamp", "C09_gate_count", "C09_range_complete"]
 
 def values_for(w, rng, quick):
     vs = []
@@ -146,7 +146,7 @@ def run(ck):
                           "theorems_no_longer_tied": ["C09_range_sound", "C09_range_sound_in_system"]})
     return ck.finish(level="proof",
         rule="exhaustive over widths 0..=256 (bit-counted entry point and runtime seam) and pairs 0..=130 (deprecated entry point) x boundary values (2^w-1, 2^w, 2^w+1, r-1, random; thorough adds quad-padding boundaries); every real snapshot is compared with the model and evaluated by the extracted row evaluator against the expected verdict; alias template on out-of-range values; L1 widget tuples",
-        assumptions=["PrimeR (prime r)", "asg ZERO = 0 (row 0 of every initialized composer)", "completeness direction is checked on the real layouts by the proved evaluator, not yet mechanised as a theorem"],
+        assumptions=["PrimeR (prime r)", "asg ZERO = 0 (row 0 of every initialized composer)", "completeness (C09_range_complete) is proved for the accumulator values the model computes; that the real gadget computes the same values is the L3 tie"],
         checker_cmd=proofgate.CHECKER_CMD, trusted_base=proofgate.TRUSTED, extra={"exhaustive": True})
 
 def replay(ck, path):
